@@ -258,28 +258,77 @@ def _solver(timeout_ms):
     return s
 
 
-def discharge(obl: Obligation, timeout_ms=30000):
-    """Returns (result, ms, info): result in discharged | refuted | unknown."""
-    t0 = time.time()
+def _int_consts(fs):
+    out, seen, st = {}, set(), list(fs)
+    while st:
+        x = st.pop()
+        i = x.get_id()
+        if i in seen:
+            continue
+        seen.add(i)
+        if z3.is_quantifier(x):
+            st.append(x.body())
+            continue
+        if z3.is_const(x) and x.decl().kind() == z3.Z3_OP_UNINTERPRETED and z3.is_int(x):
+            out[str(x)] = x
+        if z3.is_app(x):
+            st.extend(x.children())
+    return list(out.values())
+
+
+def _model_dict(m):
+    model = {}
+    for d in m.decls():
+        if d.arity() == 0:
+            try:
+                model[d.name()] = str(m[d])
+            except Exception:  # noqa: BLE001
+                pass
+    return dict(list(model.items())[:60])
+
+
+def _check(obl, timeout_ms, extra=()):
     s = _solver(timeout_ms)
     for h in obl.hyps:
         s.add(h)
     s.add(z3.Not(obl.goal))
+    for e in extra:
+        s.add(e)
     r = s.check()
-    ms = int((time.time() - t0) * 1000)
+    return r, s
+
+
+def discharge(obl: Obligation, timeout_ms=30000):
+    """Returns (result, ms, info): result in discharged | refuted | unknown.
+
+    1. the VC  hyps /\ not goal  with a short budget;  unsat -> discharged, sat -> refuted (z3 only answers sat on a
+       model it has checked against the quantified hypotheses);
+    2. if undecided: bounded counter-model search — the same VC with every integer constant (sequence lengths, row
+       counts, chunk sizes, ...) confined to [-b, b], b = 1, 2, 3: a model found there is a genuine model of the
+       full VC (the quantified axioms are all guarded by those lengths, which makes them finitely instantiable);
+    3. if still undecided: the VC again with the full budget."""
+    t0 = time.time()
+    first = min(3000, timeout_ms)
+    r, s = _check(obl, first)
+    ms = lambda: int((time.time() - t0) * 1000)  # noqa: E731
     if r == z3.unsat:
-        return "discharged", ms, {}
+        return "discharged", ms(), {}
     if r == z3.sat:
-        m = s.model()
-        model = {}
-        for d in m.decls():
-            if d.arity() == 0:
-                try:
-                    model[d.name()] = str(m[d])
-                except Exception:
-                    pass
-        return "refuted", ms, {"model": dict(list(model.items())[:60]), "solver_output": "sat"}
-    return "unknown", ms, {"solver_output": f"unknown: {s.reason_unknown()}"}
+        return "refuted", ms(), {"model": _model_dict(s.model()), "solver_output": "sat"}
+    ints = _int_consts(obl.hyps + [obl.goal])
+    for b in (1, 2, 3):
+        extra = [z3.And(v >= -b, v <= b) for v in ints]
+        r2, s2 = _check(obl, 4000, extra)
+        if r2 == z3.sat:
+            return "refuted", ms(), {"model": _model_dict(s2.model()),
+                                     "solver_output": f"sat (bounded counter-model search: all integer constants within [-{b}, {b}])"}
+    if timeout_ms > first:
+        r, s = _check(obl, timeout_ms)
+        if r == z3.unsat:
+            return "discharged", ms(), {}
+        if r == z3.sat:
+            return "refuted", ms(), {"model": _model_dict(s.model()), "solver_output": "sat"}
+    return "unknown", ms(), {"solver_output": f"unknown: {s.reason_unknown()}"}
 
 
 def to_smt2(obl: Obligation) -> str:
